@@ -63,6 +63,19 @@ def run(ctx):
         w = rng.choice(c11.UNARY + c11.BINARY)
         tail = [rng.choice(c11.POOL[rng.choice(types)]) for _ in range(1 if w in c11.UNARY else 2)]
         good.append(c11.history(rng, rng.choice([3, 4, 5, 6, 7]), tail) + " " + w)
+    # address-set arithmetic over many range geometries (coverage.cc edits vectors in place) and regular expressions that
+    # match, do not match and do not compile (regcomp / regfree pairs)
+    for _ in range(120 if ctx.tier == "quick" else 3000):
+        def term():
+            lo = rng.randrange(0, 24)
+            return "%d %d aset" % (lo, lo + rng.choice([0, 1, 2, 3, 5, 8, 20]))
+        e = term()
+        for _k in range(rng.randint(1, 4)):
+            e = "%s %s %s" % (e, term(), rng.choice(["add", "add", "sub", "overlap"]))
+        good.append(e + rng.choice(["", " length", " [elem]", " [relem]", " range", " 3 ?contains", " 7 add", " 7 sub"]))
+    for subj in ('"foobar"', '""', '"aab"'):
+        for pat in ('"b.*z"', '"^a*b$"', '"o+"', '"("', '"[a"', '"x"', '"^$"'):
+            good += ["%s %s ?match" % (subj, pat), "%s !(%s ?match)" % (subj, pat), "%s (=~ %s)" % (subj, pat), "%s (!~ %s)" % (subj, pat)]
     bad = [m.decode("latin-1") for m in (c14.mutate(rng, g.program()) for _ in range(n // 2))] + c14.UNTERM + c14.INTLITS
     if ctx.replay:
         import json
